@@ -391,6 +391,8 @@ def nonEmptyCells (d : Dict) : Nat :=
 /-- counter invariant: `count` is the number of stored elements, `fill` the number of non-empty cells -/
 def CInv (d : Dict) : Prop := d.count = (entries d).length ∧ d.fill = nonEmptyCells d
 
+instance (d : Dict) : Decidable (CInv d) := inferInstanceAs (Decidable (_ ∧ _))
+
 theorem entries_length (d : Dict) : (entries d).length = cellTotal d.cell (d.tableSize + 1) := rfl
 
 theorem nonEmptyCells_eq (d : Dict) : nonEmptyCells d = cnt (fun i => !(d.cell i).isEmpty) (d.tableSize + 1) := rfl
